@@ -143,7 +143,7 @@ def h_piecewise(ctx, fname, nmax):
 def units(tier, seed):
     out = []
     nmax = 5 if tier == 'quick' else 12
-    opts = {'property': PROP, 'float_tol': 1e-5}
+    opts = {'property': PROP, 'float_tol': 1e-5, 'definedness': True}
 
     def add(name, func, **kw):
         out.append(Unit('C16/' + name, 'symx.props.c16', func, kw, dict(opts)))
